@@ -18,6 +18,7 @@ MANIFEST = {
     'note': 'Trusted: numpy digests. An entry point that cannot run on a read-only array because it writes into its input is a violation (that is what the sanitizer is for). is_imf is not in the property\'s entry-point list (and is broken on numpy 2 by an unrelated np.alltrue in a log message).',
     'technique': 'mutation sanitizer + differential layout oracle + repeat-call determinism monitor wrapped around the real entry points',
 }
+LOGGER_ON_ODD_SHARDS = True
 BUDGET_S = {'quick': 70, 'thorough': 420}
 ROUNDS = {'quick': 48, 'thorough': 640}
 RULE = ('every entry of the entry-point table is called once per round on a fresh seeded signal (read-only arrays, shared option '
@@ -166,6 +167,30 @@ def build_table():
         q[int(r.integers(3))] = np.nan
         return (run, (ro(p), ro(r.standard_normal(len(p))), ro(q)), {}, True)
     T['Cycles_operations'] = cyc_ops
+
+    def cyc_sequence(r, s):
+        p = phase(r)
+        xs = np.sin(p)
+
+        def run(ph, x):
+            # the same container handed to several routines in turn: a repeated call must repeat its result
+            with quiet():
+                cy = C.Cycles(ph)
+                a = C.get_control_points(x, cy)
+                st1 = C.get_cycle_stat(cy, x, func=np.max)
+                C.get_cycle_stat(cy, x, mode='augmented', func=np.mean)
+                C.phase_align(ph, x, cycles=cy, npoints=8)
+                C.get_control_points(x, cy, mode='augmented')
+                b = C.get_control_points(x, cy)
+                st2 = C.get_cycle_stat(cy, x, func=np.max)
+                inds = [None if i is None else np.asarray(i) for _, i in cy]
+            if not (same_result(a, b) and same_result(st1, st2)):
+                raise AssertionError('repeating a default-mode call on the same Cycles object after augmented-mode calls gives a different result')
+            if any(i is None for i in inds) or np.concatenate(inds).tolist() != list(range(len(ph))):
+                raise AssertionError('iterating the container no longer yields the plain cycles')
+            return a, st1
+        return (run, (ro(p), ro(xs)), {}, True)
+    T['Cycles_object_call_sequence'] = cyc_sequence
     T['project_cycles_to_samples'] = lambda r, s: (CS.project_cycles_to_samples, (ro(np.arange(4.)), ro(np.repeat(np.arange(4), 3))), {}, True)
     T['amplitude_normalise'] = lambda r, s: (U.amplitude_normalise, (ro(imfs(r)),), dict(clip=bool(r.random() < .5)), True)
     T['wrap_phase'] = lambda r, s: (U.wrap_phase, (ro(np.cumsum(r.uniform(0, 1, 100))),), {}, True)
@@ -182,6 +207,21 @@ def shared_opts():
             'mag_pad_opts': {'mode': 'mean', 'stat_length': 2}, 'loc_pad_opts': {'mode': 'reflect', 'reflect_type': 'odd'},
             'second_args': {'imf_opts': {'stop_method': 'fixed', 'max_iters': 3}},
             'mask_freqs_list': [0.25, 0.1, 0.04, 0.02, 0.01], 'conditions': ['is_good>=0', 'duration>3']}
+
+
+def session_activity(rng):
+    """Unrelated things a session does between two identical calls: none of it may change the second result."""
+    from emd import sift as S, cycles as C
+    with quiet():
+        cfg = S.get_config(gens.pick(rng, ['sift', 'mask_sift', 'ensemble_sift']))
+        cfg['extrema_opts/mag_pad_opts/stat_length'] = 3          # edits of a private configuration object ...
+        cfg['extrema_opts/mag_pad_opts/mode'] = 'mean'
+        cfg['imf_opts/sd_thresh'] = .3
+        cfg['envelope_opts']['interp_method'] = 'pchip'
+        del cfg['extrema_opts/loc_pad_opts/reflect_type']
+        cy = C.Cycles(gens.synthetic_phase(rng, ncycles=4))        # ... and an unrelated container
+        cy.compute_cycle_timings()
+        np.random.seed(int(rng.integers(2 ** 31)))                # ... and whatever happened to the global RNG
 
 
 def run_entry(ctx, name, build, rng, shared, round_seed):
@@ -224,6 +264,7 @@ def run_entry(ctx, name, build, rng, shared, round_seed):
         return
     ctx.count('sanitized_calls_ok')
     if det:
+        session_activity(rng)
         try:
             with watchdog(120):
                 res2 = call()
